@@ -163,9 +163,12 @@ def arc_cases(draw):
     lon_val = st.one_of(st.sampled_from([-180.0, 0.0, 180.0, 360.0, -179.999999, 359.999999, 1e-7, -1e-7]),
                         gen.finite(-180, 360), st.integers(-180, 360).map(float))
     W = draw(lon_val)
-    kind = draw(st.sampled_from(["free", "narrow", "wide", "same", "wrap"]))
+    kind = draw(st.sampled_from(["free", "narrow", "wide", "same", "wrap", "tiny"]))
     if kind == "free":
         E = draw(lon_val)
+    elif kind == "tiny":
+        # survey-scale regions: widths of 1e-9 ... 1e-2 degrees anywhere on the globe
+        E = W + draw(st.sampled_from([1e-9, 1e-6, 1e-4, 1e-3, 3e-3, 1e-2]))
     elif kind == "narrow":
         E = W + draw(gen.finite(0, 5))
     elif kind == "wide":
